@@ -48,7 +48,9 @@ def secret_case(draw):
         "sensitive_headers": {name: canary("H") for name in draw(st.lists(st.sampled_from(SENSITIVE_HEADER_NAMES), min_size=0, max_size=3, unique_by=str.lower))},
         "control_headers": {name: canary("C") for name in draw(st.lists(st.sampled_from(CONTROL_HEADER_NAMES), min_size=1, max_size=2, unique=True))},
         "auth": ["usr", canary("A")] if draw(st.booleans()) else None,
-        "userinfo": canary("U") if draw(st.booleans()) else None,
+        # a password may contain `@` (written %40 in the URL): both halves are secrets
+        "userinfo": None,
+        "userinfo_kind": draw(st.sampled_from([None, None, "plain", "with-at"])),
         "set_query": {"api_key": canary("Q")} if draw(st.booleans()) else {},
         "control_query": {"page": canary("P")} if draw(st.booleans()) else {},
         "set_cookie": {"session": canary("K")} if draw(st.booleans()) else {},
@@ -59,6 +61,10 @@ def secret_case(draw):
         "phases": draw(st.sampled_from([["fuzzing"], ["coverage", "fuzzing"], ["examples", "coverage", "fuzzing", "stateful"]])),
         "seed": draw(st.integers(0, 1000)),
     }
+    if inp["userinfo_kind"] == "plain":
+        inp["userinfo"] = [canary("U")]
+    elif inp["userinfo_kind"] == "with-at":
+        inp["userinfo"] = [canary("U"), canary("V")]  # password `<U>@<V>`
     if "x-api-key" in {k.lower() for k in inp["sensitive_headers"]}:
         inp["set_header"] = {}
     if inp["auth"] and any(k.lower() in ("authorization",) for k in inp["sensitive_headers"]):
@@ -99,6 +105,8 @@ def check_secrets(ctx: Ctx, inp) -> None:
             return loopback.Reply(201, headers, b'{"id": 7}')
         return loopback.Reply(500, headers, b'{"error": "boom"}')
 
+    if isinstance(inp.get("userinfo"), str):  # replay files written before passwords with `@` were generated
+        inp = dict(inp, userinfo=[inp["userinfo"]])
     server = loopback.shared(script)
     workdir = tempfile.mkdtemp(prefix="vfw-c15-", dir="/var/tmp")
     try:
@@ -107,7 +115,7 @@ def check_secrets(ctx: Ctx, inp) -> None:
             json.dump(build_doc(inp), fd)
         url = server.url
         if inp["userinfo"]:
-            url = url.replace("http://", f"http://apiuser:{inp['userinfo']}@")
+            url = url.replace("http://", f"http://apiuser:{'%40'.join(inp['userinfo'])}@")
         report_dir = os.path.join(workdir, "reports")
         args = ["/venv/bin/st", "run", schema_path, "--url", url, "--report", "junit,vcr,har", "--report-dir", report_dir, "--phases", ",".join(inp["phases"]), "--max-examples", "3", "--seed", str(inp["seed"]), "--no-color", "--checks", "not_a_server_error", "--continue-on-failure", "--output-sanitize", "true" if inp["sanitize"] else "false"]
         for name, value in {**inp["sensitive_headers"], **inp["control_headers"]}.items():
@@ -139,7 +147,7 @@ def check_secrets(ctx: Ctx, inp) -> None:
         if inp["auth"]:
             sensitive.append(("basic-auth", forms(inp["auth"][1], inp["auth"][0])))
         if inp["userinfo"]:
-            sensitive.append(("url-userinfo", forms(inp["userinfo"])))
+            sensitive.append(("url-userinfo", [f for part in inp["userinfo"] for f in forms(part)]))
         for k, v in inp["set_query"].items():
             sensitive.append((f"set-query:{k}", forms(v)))
         for k, v in inp["set_cookie"].items():
